@@ -312,6 +312,9 @@ def witnesses():
     # collision after rounding: two vertices 1e-9 apart are one vertex after a text round trip (premise of mesh_roundtrip is necessary)
     fan = [(0.5, 0.5, 0.0), (0.500000001, 0.5, 0.0), (0.0, 0.0, 0.0), (1.0, 0.0, 0.0), (1.0, 1.0, 0.0), (0.0, 1.0, 0.0)]
     w.append(("collide-tri", case_roundtrip(0, 1, fan, [(0, 2, 3), (0, 3, 4), (1, 4, 5), (1, 5, 2)])))
+    # c15_flood_fill_consistent_refuted: the pair (2,3,4),(3,4,5) hangs on triangle (0,1,2) by vertex 2 only and stays inconsistent after load
+    bt = [(0.0, 0.0, 0.0), (1.0, 0.0, 0.0), (0.5, 1.0, 0.0), (0.0, 2.0, 0.0), (1.0, 2.0, 0.0), (0.5, 3.0, 0.0)]
+    w.append(("bowtie", case_roundtrip(1, 0, bt, [(0, 1, 2), (2, 3, 4), (3, 4, 5)])))
     return w
 
 OPN = {1: "roundtrip", 2: "writer", 3: "merge", 4: "om_mesh_convert", 5: "om_mesh_concat", 6: "om_mesh_convert chain"}
@@ -492,7 +495,10 @@ def main(replay=None):
             k = cases.index(c); i = io[k]; m = mo[k]
             o = [int(x) for x in i.split()]
             before, p = parse_dump(o, 1); after = parse_dump(o, p + 1)[0] if o[p] == 0 else None
-            ok = after is not None and after["ng"] == before["ng"] - 1 and m == i
+            if name == "bowtie":
+                ok = after is not None and m == i and local_tris(after) == [(0, 1, 2), (2, 3, 4), (3, 4, 5)] and not locally_consistent(after["tris"])
+            else:
+                ok = after is not None and after["ng"] == before["ng"] - 1 and m == i
             if not ok:
                 ck.violation("witness %s does not reproduce" % name, "the witness of a _refuted theorem does not reproduce on the implementation: the model is wrong (%s)" % short(c),
                              dict(kind="witness", cases=[c], model=[m[:1000]], impl=[i[:1000]]), found_input=False)
